@@ -78,6 +78,7 @@ def as_iter(ex, v, by_value=False):
         if by_value and not isinstance(v0, Ref): return It('list', [c.v for c in v.items])
         return It('list', [Ref(c) for c in v.items])
     if isinstance(v, PMap):
+        if by_value and not isinstance(v0, Ref): return It('list', [Tup([Cell(k), Cell(c.v)]) for k, c in v.items])
         return It('list', [Tup([Cell(Ref(Cell(k))), Cell(Ref(c))]) for k, c in v.items])
     if isinstance(v, Adt) and v.ty == 'Option':
         return It('list', [ex.payload(v)] if v.discr == 1 else [])
@@ -477,6 +478,11 @@ def m_opt_take(ex, args, callee):
     o = cell.v; cell.v = ex.none(); return o
 
 
+def m_opt_replace(ex, args, callee):
+    cell = args[0].cell
+    o = cell.v; cell.v = ex.some(args[1]); return o
+
+
 def m_as_ref(ex, args, callee):
     o = dv(args[0])
     if o.ty == 'Option': return ex.some(Ref(o.fields[1][0])) if o.discr == 1 else ex.none()
@@ -676,7 +682,7 @@ BASE_MODELS = [
     (r'Option::<.*>::filter::', m_opt_filter), (r'Option::<.*>::or$', m_opt_or), (r'Option::<.*>::and_then::', m_opt_and_then), (r'Option::<.*>::or_else::', m_opt_or_else),
     (r'(Option|Result)::<.*>::unwrap_or$', m_unwrap_or), (r'(Option|Result)::<.*>::unwrap_or_else::', m_unwrap_or_else),
     (r'(Option|Result)::<.*>::(unwrap|expect)$', m_expect),
-    (r'Option::<.*>::take$', m_opt_take), (r'(Option|Result)::<.*>::as_ref$|Option::<.*>::as_mut$', m_as_ref),
+    (r'Option::<.*>::take$', m_opt_take), (r'Option::<.*>::replace$', m_opt_replace), (r'Option::<.*>::insert$', lambda ex, a, c: (m_opt_replace(ex, a, c), Ref(a[0].cell.v.fields[1][0]))[1]), (r'(Option|Result)::<.*>::as_ref$|Option::<.*>::as_mut$', m_as_ref),
     (r'Option::<.*>::as_deref_mut$|Option::<.*>::as_deref$', m_as_deref),
     (r'Option::<&.*>::cloned$|Option::<&.*>::copied$', lambda ex, a, c: ex.some(dv(ex.payload(a[0]))) if a[0].discr == 1 else a[0]),
     (r'Result::<.*>::map::', m_res_map), (r'Result::<.*>::map_err::', m_map_err), (r'Result::<.*>::and_then::', m_res_and_then),
@@ -694,6 +700,7 @@ BASE_MODELS = [
     (r'^core::fmt::rt::', lambda ex, a, c: Opaque('fmt')),
     (r'^std::fmt::format$|^alloc::fmt::format$', m_fmt_format),
     (r'^must_use::', ident),
+    (r'^std::any::type_name::|^type_name::', lambda ex, a, c: 'type-name'),
     (r'^<[ui](8|16|32|64|128|size) as (From|TryFrom)<[ui](8|16|32|64|128|size)>>::(from|try_from)$', m_int_from),
     (r'NonZero::<.*>::get$', ident), (r'NonZero::<.*>::new_unchecked$', ident),
     (r'panic_fmt|^panic$|panicking::panic|^core::panicking|^std::rt::begin_panic|unwrap_failed|expect_failed', m_panic),
